@@ -128,6 +128,20 @@ def build_and_prove(mod, overrides=None, rlimit=None, second_solver=False, only=
     return v, results, t_sym, time.time() - t1
 
 
+def _all_natives(mod):
+    """witness finders: the check's own, then those of the other contract modules (a contract claimed from another module keeps that
+    module's input catalogue for the native witness search)"""
+    out = dict(getattr(mod, 'NATIVE', {}))
+    for i in range(1, 20):
+        try:
+            other = importlib.import_module('contracts.C%02d' % i)
+        except Exception:
+            continue
+        for k, f in getattr(other, 'NATIVE', {}).items():
+            out.setdefault(k, f)
+    return out
+
+
 def load_known():
     p = os.path.join(VERIF, 'known_findings.json')
     if not os.path.exists(p):
@@ -150,6 +164,7 @@ def run_native(code, timeout=120):
 
 def check(pid, tier, seed):
     t_start = time.time()
+    os.environ['PYVC_TIER'] = tier          # contract modules may offer more cases of a contract in the thorough tier (read in contracts())
     mod = importlib.import_module('contracts.' + pid)
     thorough = tier == 'thorough'
     rl = int(os.environ.get('PYVC_RLIMIT', '30000000')) * (10 if thorough else 1)
@@ -197,7 +212,7 @@ def check(pid, tier, seed):
     for n in refuted:
         r = by[n]
         finder = None
-        for prefix, f in getattr(mod, 'NATIVE', {}).items():
+        for prefix, f in _all_natives(mod).items():
             if n.startswith(prefix):
                 finder = f
         witness = None
